@@ -19,6 +19,13 @@ def _xs(rng, n, kind):
             out.append(x)
             x += float(rng.choice([1, 1, 1, 2, 3, 10, 50]))
         return out
+    if kind == 'jitter':
+        # an index grid 0..n-1 whose interior samples are displaced (end points stay exactly 0 and n-1)
+        out = [float(i) for i in range(n)]
+        for i in range(1, n - 1):
+            if rng.random() < 0.4:
+                out[i] = i + rng.choice([-0.25, 0.25, 0.5, -0.5, 0.125])
+        return out
     x = rng.uniform(0, 10)
     out = []
     for _ in range(n):
@@ -31,7 +38,7 @@ def gen_curve(rng, n, family=None, scale=True):
     """Return (family, [[x, y], ...]) with n >= 2 points."""
     if family is None:
         family = rng.choice(FAMILIES)
-    xs = _xs(rng, n, rng.choice(['int', 'int', 'gaps', 'real']))
+    xs = _xs(rng, n, rng.choice(['int', 'int', 'gaps', 'real', 'jitter']))
     ys = []
     if family == 'mrc':
         a = rng.uniform(0.5, 50)
